@@ -10,7 +10,7 @@ CHECKS = {
         category="proof", design_ref="DESIGN.md §5 C09, §2.1",
         technique="contract-based deductive verification: sidecar contracts on the real cst functions, VCs generated from the ast of /repo's current source (cddvc E1), discharged by z3/cvc5",
         text="Every obligation of the contracts on cst_scan, cst_scanner, infer_cst_type, cst_parse_one_node (body and set_prev_node wrapper), cst_parser and cst_parse is discharged for all strings and all iterations: "
-             "joined(node values) == source; first node starts at line 1; every node starts where the previous ended; a node spans exactly count('\\n') lines. Unbounded proof; the enumeration over short strings and repo files is a cross-check only.",
+             "joined(node values) == source (with total correctness for the helper get_construct_name: for every tuple of strings no subscript is out of range, which discharges the 'total function' assumption of its caller); first node starts at line 1; every node starts where the previous ended; a node spans exactly count('\\n') lines. Unbounded proof; the enumeration over short strings and repo files is a cross-check only.",
         note="Trusted: the E1 VC generator and its model of Python (DESIGN §3), z3/cvc5, the abstract list views, stdlib specs for ''.join / str.strip / str.count / deque(map(..),maxlen=0) (listed in the evidence); classifier predicates are uninterpreted so the proof does not depend on them."),
     "C11": dict(
         category="proof", design_ref="DESIGN.md §5 C11, §2.5",
@@ -20,7 +20,7 @@ CHECKS = {
         note="Assumed: stdlib/black/ast.parse terminate, AST inputs are finite trees, iterables from callers are finite, declared variable sorts are the run-time types; recursive call sites marked 'assumed' in contracts/C11.py are not proved."),
     "C17": dict(
         category="proof", design_ref="DESIGN.md §5 C17, §2.2",
-        technique="contract-based verification by effect/frame analysis: closed inventory of exec/import/spawn/network/write sites per entry point over the import-aware call graph (E2), flag-sensitive for --input-eval, plus a clean() refinement-type check on the single eval argument",
+        technique="contract-based verification by effect/frame analysis: closed inventory of exec (eval / exec / compile and the deserialisers pickle, marshal, shelve, dill, yaml.load ...) / import / spawn / network / write sites per entry point over the import-aware call graph (E2), flag-sensitive for --input-eval, plus a clean() refinement-type check on the single eval argument",
         text="For every parser, emitter, doctrans, sync, sync_properties and gen entry point, every reachable EXEC / dynamic-import / spawn / network / file-write site is in the declared inventory (a new or newly reachable site fails a named obligation); "
              "sync_properties cannot reach the eval of the input module unless input_eval; the one eval reachable from parsers receives only strings built from characters that passed the word_chars/separator filter and clean constants (no '(' , '_' , '=' , ':' , '@'). Holds for all inputs because the obligations never look at the input.",
         note="Assumed: call graph over-approximates real calls (dynamic dispatch of get_parser/get_emitter declared), primitive-effect tables complete, attribute access on stdlib modules/objects is side-effect free (the globals/locals visible at the eval site are checked, in a real interpreter, to be only modules, functions, classes, plain data and stdlib instances), third-party code (black) has no such effects."),
@@ -39,19 +39,19 @@ CHECKS = {
     "C10": dict(
         category="proof", design_ref="DESIGN.md §5 C10, §2.4",
         technique="contract-based verification by a typing discipline: ghost type 'unordered' for set-valued expressions with one obligation per consumption site, plus cross-call-state frame rules (rule engine E4 over the ast of the whole package)",
-        text="Every syntactically set-valued expression of the non-test package is consumed order-insensitively (membership, len, set algebra, sorted without a non-injective key, any/all/min/max, loops that only update pre-existing entries) and no function writes globals, module attributes, module-level objects, mutable defaults or caches, and no module-level container with nested mutable elements is handed out without a deep copy (nor a flat one passed to a callee that mutates that parameter); this implies independence from the hash seed and from call history for all inputs. "
+        text="Every syntactically set-valued expression of the non-test package is consumed order-insensitively (membership, len, set algebra, sorted without a non-injective key, any/all/min/max, loops that only update pre-existing entries) and no function writes globals, module attributes, module-level objects, mutable defaults or caches of results that are not provably immutable, and no module-level container with nested mutable elements is handed out without a deep copy (nor a flat one passed to a callee that mutates that parameter); this implies independence from the hash seed and from call history for all inputs. "
              "The seed/history byte comparison is a bounded cross-check for what the syntactic typing cannot see.",
         note="Assumed: values whose type the rules cannot see are ordered; dict order is insertion order; black/ast.unparse deterministic; sets passed to repo callees are followed into the callee (parameters and instance attributes typed unordered, fixpoint), no assumed callee site remains; module-level mutable templates: only syntactic escapes are seen (a template aliased through a local first is not)."),
     "C15": dict(
         category="other", design_ref="DESIGN.md §5 C15",
         technique="contract-based deductive verification of the split / re-assembly functions (E1 VCs over Python slice semantics, z3 strings) for the mechanism lemmas; run-time contracts over an enumerated docstring domain for the relational remainder",
-        text="PROVED for all strings: (1) in parse_docstring_into_header_args_footer the header, section and footer slices of the original concatenate to the original whenever token-start <= token-last (or either is absent), and the returned section is that slice unless the re-indent branch ran; (2) _get_token_start_idx returns an index in [-1, len]; (3) header_args_footer_to_str keeps the header as a prefix and the footer as a suffix, byte for byte; (4) in _get_token_start_idx, at the end of a line that starts with any ReST or Google section token (the property's list, not the code's table), every path returns the start of that line (must-return block contract). "
+        text="PROVED for all strings: (1) in parse_docstring_into_header_args_footer the header, section and footer slices of the original concatenate to the original whenever token-start <= token-last (or either is absent), and the returned section is that slice unless the re-indent branch ran; (2) _get_token_start_idx returns an index in [-1, len]; (3) header_args_footer_to_str keeps the header as a prefix and the footer as a suffix, byte for byte; (4) in _get_token_start_idx, at the end of a line that starts with any ReST or Google section token (the property's list, not the code's table), every path returns the start of that line (must-return block contract), and conversely a line that starts with none of the property's tokens (nor a bare NumPy heading word) never ends the scan (must-not-return block); (5) the re-indent step of docstring.emit resumes at the line break that ends the first non-blank line or right after it, never later (block contract with an expression probe). "
              "BOUNDED only (not proved): token-start <= token-last between the two independent scanners, the returned triple, and that every header line survives conversion between the three styles (enumerated token strings and constructed docstrings). Two known findings (re-indented section; Raises: off-by-one).",
         note="Assumed contract: _get_token_last_idx returns >= -1 and is deterministic (checked at run time over the bounded domain). E1's Python-semantics model (DESIGN §3)."),
     "C06": dict(
         category="other", design_ref="DESIGN.md §5 C06",
         technique="contract-based deductive verification of param2json_schema_property (E1: record with presence bits, Seq view of `required`, z3), lifted to json_schema() for parameter lists of any length by a fold lemma (Lean 4 kernel) under fold-shape side conditions checked on the real ast; run-time contracts over IR(n) with the 2020-12 meta-schema as oracle for the rest",
-        text="PROVED for all inputs: param2json_schema_property appends the name to `required` exactly when the type string does not start with 'Optional[', leaves `required` otherwise untouched (frame), turns a truthy doc into the description and never leaves a `typ` key; hence (Lean fold lemma required_is_filter + side conditions S1-S4 on json_schema(): fresh empty list, handed over only as the partial's keyword, mapped once over params.items() into dict(), same object emitted) the `required` list of the emitted schema is exactly the non-Optional parameter names in declaration order, for any number of parameters. "
+        text="PROVED for all inputs: param2json_schema_property appends the name to `required` exactly when the type string does not start with 'Optional[', leaves `required` otherwise untouched (frame), turns a truthy doc into the description and never leaves a `typ` key; hence (Lean fold lemma required_is_filter + side conditions S1-S4 on json_schema(): fresh empty list, handed over only as the partial's keyword, mapped once over params.items() into dict(), same object emitted) the `required` list of the emitted schema is exactly the non-Optional parameter names in declaration order, for any number of parameters; on the parse side the set of names treated as required is the schema's own list, also when it is empty (rule S5, confirmed by a round-trip replay when it stops matching). "
              "BOUNDED only: the whole-document clauses (required list of json_schema() in order, meta-schema validity, defaults validate against their property schema, Literal pattern accepts exactly the members, serialisable, parse-back equality) over the JSON-representable slice of IR(n).",
         note="Assumed: dict(map(f, xs)) calls f once per item in order (CPython); the composition callee contract + fold lemma + S1-S4 is a paper step (each part machine-checked). jsonschema's Draft202012Validator is the oracle for validity."),
     "C16": dict(
@@ -69,7 +69,7 @@ CHECKS = {
     "C07": dict(
         category="other", design_ref="DESIGN.md §5 C07",
         technique="contract-based deductive verification: block contracts on the header splice of maybe_replace_function_args (E1 over the real statements, exact str.find/rfind as word equations, z3 + cvc5, counter-models replayed by CPython on the same statements), an E1 contract on find_cst_at_ast, and write-frame / statement-order rules over the real ast of doctrans / ast_cst_utils composed with C09's proved tiling contract; the property's own oracle on generated modules for the rest",
-        text="PROVED (frame lemmas, all inputs): doctrans opens the file for writing exactly once, as its last statement, with nothing that can raise in repo code after the truncating open and the payload being the concatenation of the CST node values (so an error leaves the file intact); under doctransify_cst the only CST slots ever stored to are cst_idx (the def header) and cst_idx+1, the latter only when it is a docstring node or as an insertion. With C09 this yields: lines that are not definition headers or docstrings are byte-identical. PROVED (block contracts, all header strings of the shape `head ( plist ) ws [-> ann] :` with no parenthesis/colon in ws and no arrow/colon in ann): the re-rendered header keeps everything up to and including the opening parenthesis and everything from the parenthesis that closes the parameter list (blanks, return annotation — which may contain parentheses — and colon), and the slot keeps its name and line span. "
+        text="PROVED (frame lemmas, all inputs): doctrans opens the file for writing exactly once, as its last statement, with nothing that can raise in repo code after the truncating open and the payload being the concatenation of the CST node values (so an error leaves the file intact); under doctransify_cst the only CST slots ever stored to are cst_idx (the def header) and cst_idx+1, the latter only when it is a docstring node or as an insertion. With C09 this yields: lines that are not definition headers or docstrings are byte-identical. PROVED (E1 contracts on the nested helpers of maybe_replace_function_return_type, all strings): removing the return type of `H -> A :` yields rstrip(H) + ':' whatever A contains (colons, parentheses), adding one to `H :` keeps H as a prefix and the colon as the end. PROVED (block contracts, all header strings of the shape `head ( plist ) ws [-> ann] :` with no parenthesis/colon in ws and no arrow/colon in ann): the re-rendered header keeps everything up to and including the opening parenthesis and everything from the parenthesis that closes the parameter list (blanks, return annotation — which may contain parentheses — and colon), and the slot keeps its name and line span. "
              "BOUNDED only: that the re-rendered header and docstring keep the program (AST equality modulo docstrings/annotations/type comments), comments, validity — over generated modules. One known finding (comment inside a multi-line header).",
         note="Assumed: CST node values are str; an arrow is in the header text iff new_node.returns is set (established by maybe_replace_function_return_type, which runs first; exercised by the stand-in, not proved); sequential composition of the four block contracts is the standard Hoare rule (blocks are contiguous by construction). Decorated definitions whose decorator has parentheses are outside the header-shape precondition."),
     "C19": dict(
@@ -99,7 +99,7 @@ CHECKS = {
     "C14": dict(
         category="other", design_ref="DESIGN.md §5 C14",
         technique="contract-based deductive verification of _set_name_and_type (E1 string VCs, z3) for the name-sanitising clause and of column_call_to_param's keyword folding (E1 block contract, record with presence bits) for the allowed-keys clause; the property's postcondition well_formed_ir(result) as a run-time contract on the real parsers over generated inputs",
-        text="PROVED (lemma, all names): the name returned by _set_name_and_type has no leading asterisk, is a suffix of the original and equals it when there was none. PROVED (block contract, all Column calls): after the keyword folding of column_call_to_param the entry has no `primary_key`, `foreign_key` or `nullable` key and still has its type. "
+        text="PROVED (lemma, all names): the name returned by _set_name_and_type has no leading asterisk, is a suffix of the original and equals it when there was none. PROVED (block contract, all Column calls): after the keyword folding of column_call_to_param the entry has no `primary_key`, `foreign_key` or `nullable` key and still has its type; after the keyword folding of json_schema_property_to_param a non-empty `pattern` and the `description` keyword never survive as keys. "
              "BOUNDED only — the postcondition itself: shape, allowed keys, parsable type strings, string descriptions, signature parameters present exactly once, on docstring / function / class (incl. merge_inner_function) / pydantic / argparse / json_schema / sqlalchemy parsers over grammar-generated docstrings, generated code and arbitrary token strings. Seven known-finding classes on the pinned tree (entry-keys findings name the leaked key).",
         note="The parsers themselves are outside the engine's reach; running the repository's own tests under the wrappers (planned in DESIGN) was not built."),
     "C03": dict(
@@ -110,9 +110,9 @@ CHECKS = {
         note="The Lean statement is about an abstract hop function; that the real hops satisfy H1/H2 is only checked within the bound."),
     "C04": dict(
         category="other", design_ref="DESIGN.md §5 C04",
-        technique="bounded run-time contract `exposes(exec(to_code(emit(ir))), ir)` with CPython / inspect.signature / argparse as the oracle; only three shape contracts of the emitters are discharged deductively (rule engine)",
-        text="NOT PROVED: the specification of this property is the interpreter itself, so no contract within reach of the deductive engine expresses it. Discharged deductively (rule engine): each of the class, function and argparse emitters builds exactly one element per entry of the parameter mapping, in order. "
-             "BOUNDED — the only place the property is decided: the emitted source is compiled, executed and introspected (class attributes and annotations, inspect.signature, a populated ArgumentParser incl. choices/default/required/help and parse_args) over the executable slice of IR(n) x 3 emitters x 3 styles. One known finding (int Literal choices without type=int).",
+        technique="bounded run-time contract `exposes(exec(to_code(emit(ir))), ir)` with CPython / inspect.signature / argparse as the oracle; three shape contracts of the emitters (rule engine, confirmed by replay when they stop matching) and a frame lemma on set_default_doc (E1) are discharged deductively",
+        text="NOT PROVED: the specification of this property is the interpreter itself, so no contract within reach of the deductive engine expresses it. Discharged deductively (rule engine): each of the class, function and argparse emitters builds exactly one element per entry of the parameter mapping, in order; set_default_doc, to which the class / pydantic emitters hand their own parameter dicts before emitting the values, writes nothing but the description (E1 frame lemma: default and typ untouched). "
+             "BOUNDED — the only place the property is decided: the emitted source is compiled, executed and introspected (class attributes and annotations, inspect.signature, a populated ArgumentParser incl. choices/default/required/help and parse_args) over the executable slice of IR(n) x 3 emitters x 3 styles x emit_default_doc on/off. One known finding (int Literal choices without type=int).",
         note="Claimed as a bounded stand-in, not as a proof; listed here rather than under not_applicable because the stand-in is labelled and the shape contracts are real obligations."),
     "C05": dict(
         category="other", design_ref="DESIGN.md §5 C05",
@@ -122,8 +122,8 @@ CHECKS = {
         note="The bridge between the branch condition (a filter/map pipeline) and 'no column is marked' is an assumed idiom spec, listed in the evidence."),
     "C12": dict(
         category="other", design_ref="DESIGN.md §5 C12",
-        technique="contract-based frame verification (write-frame, dominance and shape rules over the real ast of cdd/shared/conformance.py); the property's oracle through the real CLI on file triples for the rest",
-        text="PROVED (thin frame lemmas, rule engine): _conform_filename writes only through emit.file.file on its own (normalised) filename; the in-place rewrite is dominated by `not cmp_ast(original, replacement)` and `rewrite_at_query.replaced`, so an already conforming target is not written; ground_truth only reads the truth file and hands every listed file of every kind to _conform_filename. "
+        technique="contract-based frame verification (write-frame, dominance and shape rules over the real ast of cdd/shared/conformance.py, confirmed by replay when they stop matching) plus an E1 block contract on cmp_ast, the comparison that decides whether a target is rewritten; the property's oracle through the real CLI on file triples and a differential oracle for cmp_ast for the rest",
+        text="PROVED (thin frame lemmas, rule engine): _conform_filename writes only through emit.file.file on its own (normalised) filename; the in-place rewrite is dominated by `not cmp_ast(original, replacement)` and `rewrite_at_query.replaced`, so an already conforming target is not written; on cmp_ast's sequence branch two sequences are found equal only when they have the same length (E1 block contract: a strict prefix is different); ground_truth only reads the truth file and hands every listed file of every kind to _conform_filename. "
              "BOUNDED only — and mostly known findings on the pinned tree: that each target re-parses to the truth's interface, unrelated code survives, and a second run is byte-identical, over truth kind x initial state of the three targets (same / other / missing / empty), two runs each. Six known-finding classes (method and argparse targets are never replaced; missing method file crashes; empty/missing files are appended to on every run).",
         note="The repair of the findings is not small (RewriteAtQuery never replaces a FunctionDef node), so they are recorded, not fixed."),
 }
